@@ -22,6 +22,16 @@ CHECKS = {
              "'any valid order gives the adjoint'. No axioms.",
         technique="Coq proof by potential-function invariant over the sweep + DFS order spec; exact-integer correspondence evaluated by vm_compute",
     ),
+    "C03": dict(
+        text="Machine-checked (Coq, vm_compute over tables regenerated from the installed NumPy on every run): on the complete lattice {registered binary ufunc} x {12 real dtypes} x {Python bool/int/float} x {both operand "
+             "orders}, the rule Tensor._op uses for a Python-scalar operand (cast to np.result_type of the operands, then NumPy's own resolution) yields exactly NumPy's NEP-50 result dtype; the pre-repair rule is refuted. "
+             "Tie: the dtype each scalar was actually cast to is read from the recorded operation and compared with the modelled rule in Coq; ~5000 (thorough: ~20000) calls covering every registered ufunc, sequential, "
+             "shape/joining function, operator and method over operand kinds x dtypes x layouts x options (axis forms, keepdims, ddof, dtype, out= ndarray/Tensor, where=) x tracking on/off are compared bitwise with NumPy.",
+        design_ref="DESIGN.md 5 (C03)",
+        note="Only the part of dtype resolution that MyGrad decides is modelled (NumPy's loop selection is a generated table, i.e. trusted input); value/shape parity rests on the differential test (a test, not a theorem). "
+             "Known finding: int_tensor ** 2.0 keeps the integer dtype. Trusted: Coq kernel, harness/translate.py (table generation), harness. No axioms.",
+        technique="Coq finite-lattice theorem by vm_compute over regenerated NumPy tables + exhaustive differential testing against NumPy",
+    ),
     "C07": dict(
         text="Machine-checked proofs (Coq) over the history-level model Model/GraphP.v, for EVERY history of operations / backward / clear_graph / null_grad: after L.backward() L and every tensor "
              "upstream of it (through creators not cleared before) has no creator and no recorded consumers; every tensor whose gradient changed is among them; gradients outside the traversal are "
@@ -149,7 +159,7 @@ def main():
 
 
 # fix: commits in /repo (filled in as they are made)
-SOURCE_COMMITS = ["1caf915", "cac9d7b", "4b729bd", "9cd2617", "683fb85"]
+SOURCE_COMMITS = ["1caf915", "cac9d7b", "4b729bd", "9cd2617", "683fb85", "e7ddae4"]
 
 if __name__ == "__main__":
     main()
